@@ -12,7 +12,7 @@ import itertools
 import json
 import os
 
-from . import common, pure
+from . import common, fttaskx, pure
 
 PROOFS = ["proofs/DelayedProofs.v", "models/Delayed.v"]
 SEC = 1000000000
@@ -153,6 +153,10 @@ def canon(script, obs, drop=()):
 
 # ------------------------------------------------------------------ monitors (raw log only)
 def monitor(script, impl_line):
+    if impl_line == "SKIPPED":
+        return None
+    if impl_line.startswith("HANG") or impl_line.startswith("CRASH"):
+        return ("hang", "the scenario never finishes (the delayed loop spins, deadlocks or a library goroutine panicked): " + impl_line[:300])
     obs = parse_obs(impl_line)
     if obs is None:
         return ("panic", "harness/implementation panicked: " + str(impl_line)[:200])
@@ -316,32 +320,21 @@ def gen(rng, tier):
 
 # ------------------------------------------------------------------ running
 def build(chk):
-    try:
-        return common.build_go("./cmd/fttaskx", tags="verif faketime")
-    except common.BuildError as e:
-        chk.infra_errors.append("fttaskx harness does not build against the repo working tree (API changed?): " + str(e)[-1500:])
-        return None
+    return fttaskx.build(chk)
 
 
 def run_impl(chk, binary, scripts):
-    lines = [s.line() for s in scripts]
-    out = []
-    # a fresh process every 150 scenarios
-    for i in range(0, len(lines), 150):
-        try:
-            out += common.run_impl(binary, lines[i:i + 150], env=ENV, timeout=600)
-        except Exception as e:  # crash or hang
-            chk.infra_errors.append("fttaskx crashed or hung (a panic in a library goroutine / deadlock): " + str(e)[-1200:])
-            out += ["PANIC harness process failed"] * len(lines[i:i + 150])
-    return out
+    return fttaskx.run(binary, [s.line() for s in scripts])
 
 
 def compare(script, impl_line, model_lines0, model_lines1):
     """None or a note. impl must equal ONE of the model's allowed outcomes; both tie-order
     instances of the model must agree on the compared observables."""
+    if impl_line == "SKIPPED":
+        return None
     io = parse_obs(impl_line)
-    if io is None:
-        return "implementation produced no log"
+    if io is None or impl_line.startswith("HANG") or impl_line.startswith("CRASH"):
+        return "implementation produced no log: " + impl_line[:200]
     notes = []
     matched = False
     for m0, m1 in zip(model_lines0, model_lines1):
